@@ -138,6 +138,27 @@ def run(rep):
                   % short(c, 60), ck, c)
     if n < 2:
         raise AnalysisError('JSONCookie.unquote: decoding calls not found')
+    # writer / reader agreement: the payload encoder of quote() and the decoder of unquote() are the two halves of one codec
+    PAIRS = {'b64encode': 'b64decode', 'urlsafe_b64encode': 'urlsafe_b64decode', 'standard_b64encode': 'standard_b64decode',
+             'b32encode': 'b32decode', 'b16encode': 'b16decode', 'hexlify': 'unhexlify', 'encodebytes': 'decodebytes'}
+    qf = ck.func('JSONCookie.quote')
+    encs = [call_tail(c) for c in walk_body(qf.node) if isinstance(c, ast.Call) and call_tail(c) in PAIRS]
+    decs = [call_tail(c) for c in walk_body(uq.node) if isinstance(c, ast.Call) and call_tail(c) in PAIRS.values()]
+    ok = len(encs) == 1 and len(decs) == 1 and PAIRS[encs[0]] == decs[0]
+    rep.check('R16.b', '%s::JSONCookie quote/unquote codec' % COOKIE, ok, 'quote() and unquote() use matching halves of one codec (%s / %s)' % (encs, decs) if ok else
+              'quote() encodes with %s but unquote() decodes with %s: values whose encoding differs between the two alphabets are silently '
+              'dropped (the whole cookie is discarded as unquotable)' % (encs, decs), ck, qf.node)
+    sers = [norm(c.func) for c in walk_body(qf.node) if isinstance(c, ast.Call) and call_tail(c) == 'dumps'] + \
+        [norm(c.func) for c in walk_body(uq.node) if isinstance(c, ast.Call) and call_tail(c) == 'loads']
+    ok = len(sers) == 2 and sers[0].rsplit('.', 1)[0] == sers[1].rsplit('.', 1)[0]
+    rep.check('R16.b', '%s::JSONCookie quote/unquote serializer' % COOKIE, ok, 'dumps / loads come from the same serialization module' if ok else
+              'quote() and unquote() use different serializers: %s' % sers, ck, qf.node)
+    tx = [norm(c) for c in walk_body(qf.node) if isinstance(c, ast.Call) and call_tail(c) == 'encode' and c.args] + \
+        [norm(c) for c in walk_body(uq.node) if isinstance(c, ast.Call) and call_tail(c) == 'decode' and c.args]
+    charsets = set(repo.try_fold(c.args[0], ck) for f_ in (qf, uq) for c in walk_body(f_.node)
+                   if isinstance(c, ast.Call) and call_tail(c) in ('encode', 'decode') and c.args)
+    rep.check('R16.b', '%s::JSONCookie quote/unquote charset' % COOKIE, len(charsets) == 1, 'text is encoded and decoded with the same charset %s' % sorted(charsets) if len(charsets) == 1 else
+              'quote()/unquote() use different charsets: %s' % sorted(map(str, charsets)), ck, qf.node)
     k, m, ue = repo.resolve(ck, 'UnquoteError')
     rep.check('R16.b', '%s::UnquoteError' % COOKIE, k == 'class' and m is dep, 'UnquoteError is the dependency\'s own class' if k == 'class' and m is dep else
               'UnquoteError is not the class secure_cookie catches', ck)
